@@ -40,6 +40,7 @@ type MethodShape struct {
 	NParams  int
 	Variadic bool
 	NResults int
+	AnyTail  bool // the variadic element type is `any` (a missing `...` then still type-checks)
 }
 
 // TPShape is the abstract shape of a type parameter.
@@ -98,6 +99,9 @@ func (e Env) String() string {
 			v := ""
 			if me.Variadic {
 				v = "v"
+			}
+			if me.AnyTail {
+				v = "V"
 			}
 			meths = append(meths, fmt.Sprintf("%d%s>%d", me.NParams, v, me.NResults))
 		}
@@ -244,6 +248,9 @@ func BuildModel(e Env) *Model {
 			for k := 0; k < sh.NParams; k++ {
 				p := ParamInfo{Name: tok(OpParam, ti, j, k)}
 				switch {
+				case sh.Variadic && k == sh.NParams-1 && sh.AnyTail:
+					p.Variadic = true
+					p.TypeText = "[]any"
 				case sh.Variadic && k == sh.NParams-1:
 					p.Variadic = true
 					p.TypeText = "[]" + depType()
